@@ -1,2 +1,54 @@
-import LZ4V
-def main : IO Unit := IO.println "lz4vmodel"
+import LZ4V.Judge.Rec
+import LZ4V.Judge.Block
+import Std.Data.HashMap
+/-!
+`lz4vmodel judge <casefile> <faildir>` : walk the case records written by a harness, run the specification / model
+on each, print `FAIL case=<id> op=<op> kind=<kind> file=<record> detail=<...>` per disagreement, `TAG <name> <count>`
+distribution lines and a final `DONE records=<n> fails=<k>`.  Exit status 0 iff no FAIL.
+-/
+open LZ4V.Judge
+
+def dispatch (r : Rec) : Verdict :=
+  match r.op with
+  | 1 => judgeBlock r
+  | _ => { fails := [("unknown_op", s!"op={r.op}")] }
+
+def bump (m : Std.HashMap String Nat) (k : String) : Std.HashMap String Nat := m.insert k (m.getD k 0 + 1)
+
+def judgeFile (path faildir : String) : IO UInt32 := do
+  let b ← IO.FS.readBinFile path
+  let mut pos := 0
+  let mut n := 0
+  let mut nf := 0
+  let mut tags : Std.HashMap String Nat := {}
+  let mut sigs : Std.HashMap String Nat := {}
+  let mut going := true
+  while going do
+    match readRec b pos with
+    | none => going := false
+    | some r =>
+      n := n + 1
+      pos := r.stop
+      let v := dispatch r
+      if n % 997 == 3 && n < 6000 then
+        let descr := r.args.toList.map (fun a => if a.size == 8 then s!"int {argInt a}" else s!"bytes({a.size})={hex a 24}")
+        IO.println s!"SAMPLE op={r.op} case={r.id} tags={v.tags} args={descr}"
+      for t in v.tags do tags := bump tags t
+      sigs := bump sigs (toString r.op ++ ":" ++ String.intercalate "," v.tags)
+      for (kind, detail) in v.fails do
+        nf := nf + 1
+        let f := s!"{faildir}/case{r.id}.bin"
+        if nf ≤ 20 then IO.FS.writeBinFile f (b.extract r.start r.stop)
+        IO.println s!"FAIL case={r.id} op={r.op} kind={kind} file={f} detail={detail}"
+  if pos != b.size then
+    IO.println s!"FAIL case=0 op=0 kind=malformed_case_file file={path} detail=stopped at byte {pos} of {b.size}"
+    nf := nf + 1
+  for (k, c) in tags.toList do IO.println s!"TAG {k} {c}"
+  IO.println s!"DISTINCT {sigs.size}"
+  IO.println s!"DONE records={n} fails={nf}"
+  return (if nf == 0 then 0 else 1)
+
+def main (args : List String) : IO UInt32 := do
+  match args with
+  | ["judge", path, faildir] => judgeFile path faildir
+  | _ => IO.eprintln "usage: lz4vmodel judge <casefile> <faildir>"; return 2
